@@ -218,6 +218,9 @@ End Sweep.
 Arguments upd {A} _ _ _ _.
 Arguments zero_buf {A} _ _ _.
 
+(* the tensors a result keeps alive through `_children` (C17) *)
+Definition retained (g : arena) (n : nat) : list nat := filter (reachb g n) (seq 0 (S n)).
+
 (* what Engine/Dfs.v's loop is proved to do (Proofs/DfsProofs.v); the sweep theorems take it as a hypothesis
    and Proofs/EngineCompose.v discharges it *)
 Definition dfs_spec : Prop :=
